@@ -111,6 +111,28 @@ def shard(args):
             ob.check(f"inplace/{opname}/identity-class-system{sid}", r is v and id(v) == ident and type(v) is cls and O.sysof(v) == sysb)
             exp = [getattr(fun, n) for n in O.names_of(s1)]
             ob.check(f"inplace/{opname}/equals-functional{sid}", O.same(O.coords(v), exp), dict(got=[repr(c)[:90] for c in O.coords(v)], expected=[repr(c)[:90] for c in exp]))
+    # v *= w and v /= w with a *vector* w raise TypeError exactly as v * w and v / w do, and leave v unchanged
+    for opname, inplace, functional in (("*=", lambda a, w: a.__imul__(w), lambda a, w: a * w), ("/=", lambda a, w: a.__itruediv__(w), lambda a, w: a / w)):
+        for wsys in (s1, ("xy", "z", "t")[:max(1, len(s1))] if len(s1) > 1 else ("xy",)):
+            v, w = O.make(s1, mom1, "1"), O.make(tuple(wsys), mom1, "2")
+            slots = {g: getattr(v, g) for g in GROUPS_OF_DIM[d]}
+            pid = f"{sid}x[{','.join(wsys)}]"
+            try:
+                functional(O.make(s1, mom1, "1"), w)
+                functional_raises = False
+            except TypeError:
+                functional_raises = True
+            except Exception:
+                functional_raises = True
+            try:
+                with numpy.errstate(all="ignore"):
+                    inplace(v, w)
+                raised = False
+            except Exception:
+                raised = True
+            ob.check(f"inplace/{opname}/vector-operand-raises-like-functional-form{pid}", raised == functional_raises, dict(inplace_raises=raised, functional_raises=functional_raises))
+            if functional_raises:
+                ob.check(f"inplace/{opname}/unchanged-after-vector-operand{pid}", all(getattr(v, g) is o for g, o in slots.items()))
     # an in-place operation that raises leaves the object unchanged (non-vector operand)
     for bad_operand in ("text", None, [1, 2]):
         v = O.make(s1, mom1, "1")
